@@ -107,6 +107,10 @@ impl Packer {
         if &fimg.file_system != super::FS_NAME {
             return Err(Box::new(Error::BadFormat));
         }
+        // a file image from outside can lack the type byte that decides how to unpack it
+        if fimg.fs_type.is_empty() {
+            return Err(Box::new(Error::BadFormat));
+        }
         Ok(())
     }
 }
